@@ -225,8 +225,8 @@ Proof.
     apply IH. assumption. }
   destruct (q_join q) as [js|] eqn:Ej.
   - destruct (build (j_rhs js) B) as [m|bnr] eqn:Eb; [|discriminate]. injection Hjm as <-.
-    destruct (main_loop_update q asg Hk Ho Hd Ht (Some m) A ls0 0 rows Hu) as [ls' [L1 [L2 _]]].
-    pose proof (Hagg_keep (Some m) A ls0 0 eq_refl) as Hl. rewrite L1 in *. cbn [fst] in Hl.
+    destruct (main_loop_update q asg Hk Ho Hd Ht (Some (widen (j_bhdr js) m)) A ls0 0 rows Hu) as [ls' [L1 [L2 _]]].
+    pose proof (Hagg_keep (Some (widen (j_bhdr js) m)) A ls0 0 eq_refl) as Hl. rewrite L1 in *. cbn [fst] in Hl.
     unfold ls0 in L2. cbn [l_chain] in L2. rewrite written_set_header in L2.
     change (written chain_init) with (@nil row) in L2. cbn [app] in L2.
     specialize (Hfin ls' (0 + length A) Hl L2). destruct (finish yes q ls'). exact Hfin.
